@@ -531,14 +531,22 @@ def run():
         try:
             # both verdicts of one trace in one expression (the term is parsed once).  The frames of OEndTable / OEndInline are
             # computed by the machine from the lineage (push_select_m) and compared with what push_select returned (BFrame)
-            both = coq_eval(c16_trace.COQ_HEADER, ["(let l := %s in let q := %s in (replay_l_verdict false l q, replay_l_verdict true l q, first_out_of_scope_read init l 0, entries_verdict l q, rq_diags q, agg_overlaps q))" % (t, qc) for _, t, qc, _, _ in cases]) if cases else []
+            both = coq_eval(c16_trace.COQ_HEADER, ["(let l := %s in let q := %s in (replay_l_verdict false l q, replay_l_verdict true l q, first_out_of_scope_read init l 0, entries_verdict l q, rq_diags q, agg_overlaps q, sorts_verdict l))" % (t, qc) for _, t, qc, _, _ in cases]) if cases else []
             vals = [b[0] if isinstance(b, tuple) else None for b in both]
             strict = dict((c[0], b[1]) for c, b in zip(cases, both) if isinstance(b, tuple))
             entry = dict((c[0], b[2]) for c, b in zip(cases, both) if isinstance(b, tuple))
             entv = dict((c[0], b[3]) for c, b in zip(cases, both) if isinstance(b, tuple))
             for c, b in zip(cases, both):
-                if isinstance(b, tuple) and len(b) == 6:
+                if isinstance(b, tuple) and len(b) == 7:
                     mirror_compare(c[0], norm_of[c[0]], b[4], b[5])
+                    # lower_sorts / aggregate: the ids of Sort, Take.sort, Window.sort, Aggregate.compute are consecutive declare results
+                    ck.count("sorts-window", c[0])
+                    ck.stat("sorts-window", "ids are consecutive declare results" if b[6] == 0 else "REFUSED")
+                    if b[6] != 0 and b[0] == 0:
+                        kinds = c16_trace.op_kinds(c[4]["ops"])
+                        ck.violation("the ids of a Sort / Take.sort / Window.sort / Aggregate.compute are not the ids the declares in front of it handed back (operation %s, %s): "
+                                     "lower_sorts or declare_as_columns changed?" % (b[6] - 1, kinds[b[6] - 1] if isinstance(b[6], int) and 0 < b[6] <= len(kinds) else "?"),
+                                     {"program": c[0], "verdict": b[6]})
         except RuntimeError as ex:
             vals = None
             ck.coverage["trace_eval_error"] = str(ex)[-600:]
@@ -590,9 +598,12 @@ def run():
                 if not have_lookups:
                     pass
                 elif isinstance(en, tuple) and en[0] == "Some":
-                    at, (node, nm) = en[1]
+                    at, (node, (nm, home)) = en[1]
                     ek = kinds[at] if isinstance(at, int) and at < len(kinds) else "?"
-                    ck.stat("strict-machine", "out-of-scope id entered through: " + (ek if ek.startswith("ODeclare") and nm == "None" else "push_select (closing Select)" if node == 0 and ek.startswith("OEnd") else "a lookup_cid read"))
+                    how = ek if ek.startswith("ODeclare") and nm == "None" else "push_select (closing Select)" if home == 3 else "a lookup_cid read"
+                    where = {0: " of an id of a relation that is already closed (not exported by its closing Select: F7's shape)",
+                             1: " of an id the pipeline under construction has dropped", 2: " of an id of an enclosing, suspended pipeline"}.get(home, "")
+                    ck.stat("strict-machine", "out-of-scope id entered through: " + how + where)
                     if isinstance(at, int) and isinstance(sv, int) and at > sv - 1:
                         ck.stat("strict-machine", "ENTRY-AFTER-REFUSAL")
                         ck.violation("the strict machine refuses operation %d although no out-of-scope id had entered an expression before it (first such entry: operation %d)" % (sv - 1, at),
